@@ -375,6 +375,21 @@ func gen(c *common.Ctx, emit func(...string)) {
 		op("eval", "tick\nput before\nset g0 = changed\n"+t)
 		op("check", "tick\n"+t)
 	}
+	// 1b. witnesses for "compile works on a COPY of the global static namespace" (theorem
+	// C16_compile_does_not_touch_global; seeded change C16-staticns-clone-shares-array, where
+	// staticNs.clone returned a view of the same array): `del` or shadowing of an EXISTING global in
+	// code that is only checked, or that fails to compile or to parse, must leave the variable usable.
+	emit(reset...)
+	for _, w := range []string{"del g0", "var g1", "var g2 = x", "fn tick { }", "del g0; put $nope",
+		"var g1 = 1; put $nope", "del g2; del g2", "use str; del lst", "for g0 [a] { }; nope:x", "del mp '"} {
+		op("check", w)
+		op("eval", "put $g0 $g1 $g2 $lst $mp; tick")
+	}
+	for _, w := range []string{"del g0; put $nope", "var g1 = 1; put $nope", "fn tick { }; put $nope",
+		"del g2 lst; var g2; put $nope", "del mp '", "var g0 g1 g2 = 1 2 3; del g0 g1 g2; )"} {
+		op("eval", "tick\n"+w)
+		op("eval", "put $g0 $g1 $g2 $lst $mp; tick")
+	}
 	// the binary on each of them
 	gb := newPG(r, true)
 	for i, b := range gb.staticErrors() {
